@@ -24,6 +24,7 @@ RULE = (
     "fresh question with a scripted input stream (read budget 12 end-of-input reads; 10 s of process CPU time per ask) and recording outputs; the random scripts also draw from nine long entries (30-80 characters); compared with "
     "the dialogue model: returned value, lines consumed, errors printed (counted structurally from the error stream), "
     "failure after exactly N invalid entries, stop at end of input. Confirmation: patterns x answers x defaults; "
+    "Also: typed lines that look like style markup; refilled input after an end-of-input abort on one BufferedIO; every fifth script read through the library's file-stream wrapper. "
     "non-interactive: the very default given is returned (None, index, index text, spaced index list, name), zero reads, zero bytes. Re-ask: one question object (choice / confirmation / validated) asked 2-3 times with random scripts, each ask compared (result, reads, both streams) with a new question. non-trivial = script with >= 1 invalid entry; "
     "distinct by (choices id, config, script)."
 )
